@@ -103,7 +103,19 @@ pub fn tamper() -> impl Strategy<Value = Tamper> {
 
 pub fn strategy() -> impl Strategy<Value = Case> {
     let small = gen::raw_config(6, 2, 1).prop_map(|raw| gen::build_config(&raw, CycleMode::Acyclic));
-    let big = (60usize..300, vec(any::<u16>(), 16)).prop_map(|(n, picks)| c18::big_config(n, &picks));
+    // half of the large configurations consist mostly of multi-byte characters (long ignore
+    // entries): whatever lies at a buffer boundary of the generated file is then likely to be
+    // the middle of a character
+    let big = (60usize..300, vec(any::<u16>(), 16), any::<bool>()).prop_map(|(n, picks, wide)| {
+        let mut c = c18::big_config(n, &picks);
+        if wide {
+            for (i, t) in c.targets.iter_mut().enumerate() {
+                let ch = ["€", "é", "共", "𝄞"][i % 4];
+                t.ignores.push(format!("{}/{}{}.md", t.path, ch.repeat(30 + i % 17), i));
+            }
+        }
+        c
+    });
     (prop_oneof![1 => small, 2 => big], vec(tamper(), 4..10), 0u8..=1).prop_map(|(config, tampers, source_kind)| Case { config, tampers, source_kind })
 }
 
